@@ -407,9 +407,12 @@ class Acl(AceGroup):
                     continue
             grouped_items_d[group_name].append(item)
 
+        # groups that already exist keep their uuid and note when the items are regrouped
+        old_groups: Dict[str, AceGroup] = {o.name: o for o in self._items if isinstance(o, AceGroup)}
         grouped_items: LUAceg = []
         for group_name, aces_items in grouped_items_d.items():
             if aces_items:
+                old_group = old_groups.get(group_name)
                 aceg_o = AceGroup(
                     platform=self._platform,
                     type=self._type,
@@ -418,6 +421,8 @@ class Acl(AceGroup):
                     port_nr=self._port_nr,
                     name=group_name,
                     items=aces_items,
+                    uuid=old_group.uuid if old_group else "",
+                    note=old_group.note if old_group else "",
                 )
                 grouped_items.append(aceg_o)
         self._items = grouped_items
